@@ -33,9 +33,11 @@ void h_dedupe(void) {
   int p0 = HPROP(&impl.halfedge_, e);
   __CPROVER_assume(0 <= p0 && (unsigned long)p0 < npv);
   if (pr >= 0) { int p1 = HPROP(&impl.halfedge_, NEXT3(pr)); __CPROVER_assume(0 <= p1 && (unsigned long)p1 < npv); }
+  ghost_q = nondet_ulong();   /* arbitrary channel (globals are zero-initialised) */
   __CPROVER_assume(ghost_q < NUMPROP);
   struct std_pair_int_int before = v2v._base0.ptr_[e];
   HARNESS_END;
+  SATISFIABLE(ghost_q == NUMPROP - 1 && pr >= 0);
   DedupeProp_body(&c, e);
   struct std_pair_int_int after = v2v._base0.ptr_[e];
   _Bool recorded = !(after.first == before.first && after.second == before.second);
